@@ -345,6 +345,25 @@ func runShapes(f *mbt.Flags) {
 		}
 		caseObj := map[string]any{"shape": s, "program": p, "outcome": map[string]any{"tx": o.Kind, "stage": o.Stage, "dump_changed": o.DumpChanged, "raw_diff": trim(o.RawDiff), "log": o.Log}}
 		switch s.Cls {
+		case "forbid":
+			// constructing a victim-declared value / persisting a realm value in attacker code: the tx must fail
+			if o.Kind == "ok" && executed {
+				key := "C07:forbidden-operation-succeeded:" + s.Ctx + ":" + s.Wk
+				what := fmt.Sprintf("shape %s: the transaction succeeded although attacker-declared code (%s) %s", s.id(), s.Wcode,
+					map[bool]string{true: "persisted a realm value", false: "constructed a value of a victim-declared type"}[s.Path == "pcur"])
+				if s.MutEph && !s.MutDoc {
+					key = "C07:foreign-write:ephemeral-package-funcdecl-runs-with-callers-realm"
+					what = "a top-level function declared in the MsgRun (/e/) package, invoked by victim-authorised code as a callback, ran with the victim's storage context (borrow rule #1 is not applied to ephemeral realms); " + what
+				}
+				mbt.Mismatch(key, what, caseObj)
+				cnt["violations"]++
+			} else if executed {
+				cnt["forbid_refused"]++
+			}
+			if changed && o.Kind != "ok" {
+				mbt.Mismatch("C07:failed-tx-left-victim-changes:"+s.Ctx+":"+s.Wk, "a failed transaction changed the victim's state: "+s.id(), caseObj)
+				cnt["violations"]++
+			}
 		case "verdict":
 			if changed {
 				// reproduce once on fresh victim objects (soundness rule 4)
